@@ -267,7 +267,7 @@ func (r *rig) pending() map[*op]bool {
 
 func (r *rig) quiesce() (map[*op]string, error) {
 	deadline := time.Now().Add(10 * time.Second)
-	var prev string
+	var prev, unknown string
 	same := 0
 	for {
 		pend := r.pending()
@@ -307,6 +307,11 @@ func (r *rig) quiesce() (map[*op]string, error) {
 			w := where(s[0], s[1])
 			if w == "" {
 				ok = false
+				lines := strings.Split(s[1], "\n")
+				if len(lines) > 9 {
+					lines = lines[:9]
+				}
+				unknown = strings.Join(lines, " | ")
 				break
 			}
 			res[o] = w
@@ -341,7 +346,7 @@ func (r *rig) quiesce() (map[*op]string, error) {
 			prev, same = "", 0
 		}
 		if time.Now().After(deadline) {
-			return nil, fmt.Errorf("no quiescence within 10s")
+			return nil, fmt.Errorf("no quiescence within 10s; last goroutine not at rest: %s", unknown)
 		}
 		if suspicious {
 			time.Sleep(5 * time.Millisecond)
